@@ -16,7 +16,9 @@ from mc.refmodel import geom
 TRANS = [np.array(t, dtype=float) for t in (
     (0, 0, 0), (1e-6, 0, 0), (1, 2, 3), (5e5 + .25, 5.4e6 + .5, 100.0),
     (-1e9, 1e9, 1e-3))]
-SCALES = [1e-4, 1e-2, 0.5, 1.0, 2.0, 1e2, 1e4]
+# (scales within 1e-5 .. 1e-9 of 1: a similarity, not a rigid motion)
+SCALES = [1e-4, 1e-2, 0.5, 1.0, 2.0, 1e2, 1e4, 1.000002, 0.9999998,
+          1.0 + 1e-9]
 
 
 def rotations(seed):
@@ -59,6 +61,15 @@ def check_unary(k, R, acc):
     if not np.array_equal(lie.vee(skew), v) or not np.array_equal(
             lie.hat(v), skew):
         msgs.append("hat / vee are not mutually inverse")
+    # ... against the definition (not only against each other)
+    H = np.array([[0.0, -v[2], v[1]], [v[2], 0.0, -v[0]],
+                  [-v[1], v[0], 0.0]])
+    if not np.array_equal(np.asarray(lie.hat(v), dtype=float), H):
+        msgs.append("hat(v) is not the skew-symmetric matrix of v")
+    if not np.array_equal(np.asarray(lie.vee(H), dtype=float), v):
+        msgs.append("vee of the skew-symmetric matrix of v is not v")
+    if not common.close(np.asarray(skew, dtype=float), H):
+        msgs.append("so3_log(R, return_skew=True) is not hat(so3_log(R))")
     if abs(lie.so3_log_angle(R, True) - math.degrees(ang)) > 1e-9:
         msgs.append("degrees variant inconsistent")
     if not lie.is_so3(R):
